@@ -86,7 +86,7 @@ class Prop(BaseProp):
         b = Builder(mrng, p_doc=0.5, max_depth=3, max_items=7, compound_generic=False, allow_dangling=False,
                     kinds=["function", "macro", "option", "set", "add_test", "ct_add_test", "cpp_class", "cpp_class",
                            "generic", "plain", "block", "cpa", "function", "cpa", "nested_defs", "nested_defs", "twin_defs"], p_reuse_params=0.35, p_clone=0.08,
-                    clone_toggle_doc=True)
+                    clone_toggle_doc=True, virtual_members=True, p_doc_impl=0.2)
         mod = b.module()
         text = render(mod, Layout(mrng, comments=0.05, wild=0.1, case="random"))
         # non-flag settings are the same under defaults and under X; half of the modules use parameter strip patterns
